@@ -127,12 +127,13 @@ pub(crate) fn read_escaped_string(
 
                         let mut buf = [0u8; 4];
 
-                        value.extend(
-                            char::from_u32(number)
-                                .expect("unable to convert u32 to char")
-                                .encode_utf8(&mut buf)
-                                .as_bytes(),
-                        );
+                        let character = char::from_u32(number).ok_or_else(|| {
+                            StringError::malformed_escape_sequence(
+                                position,
+                                "invalid unicode value",
+                            )
+                        })?;
+                        value.extend(character.encode_utf8(&mut buf).as_bytes());
                     }
                     'z' => {
                         while chars
